@@ -307,6 +307,8 @@ func (Concur) Run(c *orch.Case) *orch.Outcome {
 	o := &ccObs{Calls: map[string]int{}, Bad: map[string]int{}, Ran: []string{}, Wrong: []string{}, CfgSame: true}
 	if in.Mode == "parked" {
 		ccParked(&in, o)
+	} else if in.Mode == "cold" {
+		ccCold(&in, o)
 	} else {
 		ccStress(&in, o, c.Seed)
 	}
@@ -461,6 +463,35 @@ func ccCallTimed(sp *saml2.SAMLServiceProvider, op string, k, n int) string {
 	case <-time.After(sched.DefaultTimeout()):
 		sched.NoteStuck()
 		return "the call did not return"
+	}
+}
+
+// ccCold: the operations are the first calls into the library in a fresh process (several processes in a row).
+func ccCold(in *ccInput, o *ccObs) {
+	n := 4
+	if orchTier() == "thorough" {
+		n = 30
+	}
+	world.Get()
+	outboundKeys()
+	ccInbound()
+	shareKeys()
+	mode := "private"
+	if in.Shared {
+		mode = "shared"
+	}
+	for k := 0; k < n; k++ {
+		var res ColdOpsOut
+		runCold(&res, "ops", strings.Join(in.Ops, ","), mode)
+		for op, c := range res.Ran {
+			o.Calls[op] += c
+		}
+		for op, c := range res.Wrong {
+			o.Bad[op] += c
+		}
+		if res.Note != "" && len(o.Note) < 600 {
+			o.Note += "cold start: " + res.Note
+		}
 	}
 }
 
